@@ -110,6 +110,17 @@ def run(ctx, model):
         impl = tr.run_case(ctx, model, tlines, tpend, "refused-register-with-handle", "C11", scn, path, rng.random() < 0.5, {}, rnd, ops,
                            extra_case={"handle_in_the_refusal": handle}, reply_filter=flt)
         ctx.count("frames-checked", len(impl["frames"]))
+    # ---- every single-fault position of a fixed history with a close and a re-open in it (send raises / message lost /
+    # receive raises): whatever the fault left behind, every later frame carries only handles granted on ITS connection
+    rep = [("open",), tr.gen_gm(rng, connected=True), tr.gen_gm(rng, connected=False), ("close",), ("open",), tr.gen_gm(rng, connected=True),
+           ("listid",), ("close",)]
+    for policy in [(True, True, True), (True, False, True)]:
+        scn, _, _ = tr.gen_base(rng, policy=policy, generic=(0, (), b"\x01\x02"))
+        for k in range(0, 14):
+            for kind, how in (("send", "raise"), ("send", "drop"), ("recv", "raise")):
+                impl = tr.run_case(ctx, model, tlines, tpend, "single-fault-frames", "C11", scn, "10.0.0.1/bp/0", False, {(kind, k): how},
+                                   [b"\x22" * 8, b"\x33" * 8], rep)
+                ctx.count("frames-checked", len(impl["frames"]))
     tr.flush(ctx, model, tlines, tpend)
     # ---- a long connected history across the wrap of the sequence counter
     tr.run_c17(ctx, model, focus="C11")
